@@ -113,6 +113,8 @@ var kinds = []kind{
 	{name: "subseq-noend", share: shFresh, weight: 2},
 	{name: "copy-list", share: shFresh, weight: 4},
 	{name: "copy-seq", share: shFresh, weight: 1},
+	{name: "apply-values", share: shFresh, weight: 1}, // the list is spread by apply; the function keeps what it was handed
+	{name: "apply-vector", share: shFresh, weight: 1},
 	{name: "reverse", share: shFresh, weight: 4},
 	{name: "remove", share: shFresh, weight: 3},
 	{name: "remove-count", share: shFresh, weight: 1},
@@ -940,6 +942,8 @@ func sigName(op string) string {
 		return "nconc"
 	case "list*1":
 		return "list*"
+	case "apply-values", "apply-vector":
+		return "apply"
 	case "remove-count", "remove-fe":
 		return "remove"
 	case "remove-if-fe":
@@ -1463,6 +1467,10 @@ func (w *world) planProper(op Op, kd *kind) (p planned) {
 		return setq(fmt.Sprintf("(subseq %s %d)", A, s), a[s:])
 	case "copy-list", "copy-seq":
 		return setq("("+op.Op+" "+A+")", a)
+	case "apply-values":
+		return setq("(multiple-value-list (apply #'values "+A+"))", a)
+	case "apply-vector":
+		return setq("(coerce (apply #'vector "+A+") 'list)", a)
 	case "reverse", "nreverse":
 		return setq("("+op.Op+" "+A+")", rev(a))
 	case "remove", "delete":
